@@ -16,7 +16,8 @@ from concurrent.futures import ThreadPoolExecutor
 import vlib
 from vlib import log
 
-SETTINGS = ["ttl", "port", "token", "pow", "dir", "persistent"]
+SETTINGS = ["ttl", "port", "token", "pow", "dir", "persistent", "aap"]
+BOOLS = ("persistent", "aap")
 DEVS = (("dev_shallowmerge", "C32_Winner"), ("dev_nocyclecheck", "C32_NoHang"), ("dev_missingignored", "C32_MissingReported"),
         ("dev_profilebeatsflag", "C32_Winner"), ("dev_envprofilewins", "C32_Winner"))
 REACH = ("Reach_EnvSelectedDeepChain", "Reach_CycleError", "Reach_MissingError", "Reach_FlagOverEnvProfile")   # one run, -continue
@@ -134,7 +135,7 @@ POOL = ["default", "p0", "a1", "a2", "a3", "other", "zz"]
 def random_case(rng, cid):
     """all six settings at once over a random profile graph (cycles and missing parents included)"""
     config = rng.random() < 0.93
-    fv = [(s, rng.choice([1, 2]) if s == "persistent" else 1) for s in SETTINGS if rng.random() < 0.4]
+    fv = [(s, 1 if s == "aap" else rng.choice([1, 2]) if s == "persistent" else 1) for s in SETTINGS if rng.random() < 0.4]    # (no flag switches aap off)
     if not config:
         return line_of(cid, False, "yaml", "direct", "", "", [], [], [], fv, [], [])
     healthy = rng.random() < 0.6
@@ -157,14 +158,14 @@ def random_case(rng, cid):
     e1prof = rng.choice(["", rng.choice(defined), rng.choice(defined), rng.choice(POOL + ["ghost"])]) if healthy or rng.random() < 0.7 else "ghost"
     if envflag or rng.random() < 0.5:
         envs.append(("e1", e1prof))
-        ev += [("e1", s, rng.choice([1, 2]) if s == "persistent" else 2) for s in SETTINGS if rng.random() < 0.4]
+        ev += [("e1", s, rng.choice([1, 2]) if s in BOOLS else 2) for s in SETTINGS if rng.random() < 0.4]
     if rng.random() < 0.6:
         envs.append(("e9", rng.choice(defined)))
-        ev += [("e9", s, 1 if s == "persistent" else 10) for s in SETTINGS if rng.random() < 0.5]
+        ev += [("e9", s, 1 if s in BOOLS else 10) for s in SETTINGS if rng.random() < 0.5]
     pv = []
     for n in defined:
         c = 3 + POOL.index(n)
-        pv += [(n, s, rng.choice([1, 2]) if s == "persistent" else c) for s in SETTINGS if rng.random() < 0.4]
+        pv += [(n, s, rng.choice([1, 2]) if s in BOOLS else c) for s in SETTINGS if rng.random() < 0.4]
     rng.shuffle(defined)
     return line_of(cid, True, rng.choice(["yaml", "json"]), rng.choice(["direct", "overrides"]), profflag, envflag, envs, defined, ext, fv, ev, pv)
 
@@ -353,7 +354,7 @@ def e2e_case(exe, e, kept, rundir, cwd, rng):
             code = (m.group(1) or m.group(2)) if m else ""
             if proc.returncode == 0 or code in ("", "E_UNEXPECTED"):
                 raise vlib.MachineryError("daemon of case %d ended (rc=%s) without a CLI error: %s" % (e["id"], proc.returncode, out[-800:]))
-            return "error", code, {s: -1 for s in SETTINGS}
+            return "error", code, {s: -1 for s in SETTINGS if s != "aap"}
 
         def field(rx):
             m = re.search(rx, text)
